@@ -28,6 +28,8 @@ def ops(run, prefix='C14'):
                 bounds='pre-state: capacity %s, entries %s (every shape with capacity <= 2 is a separate obligation); names <= 2 bytes over {a,b,c}, <= 1 atom per crystal, arbitrary geometry' % (('any' if sh is None else sh[0]), ('-' if sh is None else sh[1])),
                 what=what, stubs=['cos/sin/pow -> 0, sqrt -> identity (libm not the subject): the real Crystal_UnitCellVolume then evaluates to a*b*c', 'typed bsearch/qsort/memcpy models with the real comparators', 'strdup bounded copy', 'vasprintf/fprintf O(1)'],
                 timeout=200 if run.tier == 'quick' else 900))
+    T.append(lambda: run.cbmc(prefix + '/comparators', srcs, 'harness_comparators', unwind=27, backends=('cadical', 'kissat'), functions=['xrayvars.c:matchCrystalStruct', 'xrayvars.c:compareCrystalStructs'],
+        bounds='every pair of names of up to 24 bytes (all byte values)', what='the lookup and the sort comparator both realise strcmp on the full names (so sorted order, duplicate detection and lookup agree)'))
     return T
 
 
